@@ -965,3 +965,44 @@ def check_no_use_of_absent_value(c: Check, rule: str, prefixes, floor: int, what
     want = sorted(i + 1 for i, line in enumerate(fm.src.splitlines()) if '# EXPECT absent' in line)
     if got != want:
         raise AnalysisError('%s: positive control of absent-value-used failed: lines %s, expected %s' % (rule, got, want))
+
+
+# ------------------------------------------------------------------ EXIT: success of a process is "exit code == 0"
+
+def exit_code_comparisons(ix: Index, prefixes) -> Tuple[int, List[Tuple[str, int, str, str]]]:
+    """(number of comparisons of an exit code with an integer constant, [(relpath, line, function key, text)] of those
+    that ORDER it against the constant (`> 0`, `>= 1`, `< 1` ...)).  A process ended by a signal has a negative exit
+    code: `exit_code > 0` takes it for a success, and what it wrote before it died for its result."""
+    n = 0
+    bad = []
+    for name in ix.all_module_names():
+        if not any(name == p_ or name.startswith(p_ + '.') for p_ in prefixes):
+            continue
+        t = ix.text(name)
+        if 'exit' not in t and 'returncode' not in t:
+            continue
+        m = ix.module(name)
+        for x in ast.walk(m.tree):
+            if not (isinstance(x, ast.Compare) and len(x.ops) == 1):
+                continue
+            l, r = x.left, x.comparators[0]
+            for a, b in ((l, r), (r, l)):
+                txt = unparse(a).lower().replace('_', '')
+                if ('exitcode' in txt or 'returncode' in txt) and isinstance(b, ast.Constant) \
+                        and isinstance(b.value, int) and not isinstance(b.value, bool):
+                    n += 1
+                    if isinstance(x.ops[0], (ast.Gt, ast.GtE, ast.Lt, ast.LtE)) and b.value in (0, 1, -1):
+                        f = m.enclosing_func(x)
+                        bad.append((m.relpath, x.lineno, f.key if f else name, unparse(x)))
+    return n, bad
+
+
+def check_exit_code_tests(c: Check, rule: str, prefixes, floor: int, what: str) -> None:
+    n, bad = exit_code_comparisons(c.ix, prefixes)
+    for relpath, line, fkey, txt in bad:
+        c.bad(rule, 'exit-code-ordered-against-zero/%s' % fkey,
+              '`%s`: a process ended by a signal has a negative exit code, which this test takes for a success (%s)' % (
+                  txt, what), '%s:%d' % (relpath, line))
+    if not bad:
+        c.ok(rule, 'exit-code-tests', detail='%d comparisons of an exit code with a constant, all == / !=' % n)
+    c.floor(rule, 'comparisons of an exit code with a constant', n, floor)
